@@ -278,6 +278,7 @@ def main(tier, seed):
     stats.extra["graph_states"], stats.extra["graph_edges"] = len(g.states), g.n_edges
     for cn in (list(CONCS) if thorough else ["str"]):
         core.replay_graph_generic(g, Driver(cn), verdict, stats)
+    core.replay_walks(g, Driver("str"), verdict, stats, n_walks=2000 if thorough else 300, length=16, seed=seed)
     canary(stats)
     traces = record(60 if thorough else 24, seed, thorough)
     core.validate_traces_generic(SPECDIR, "LossyTrace.tla", "LossyTrace.cfg", traces, stats, verdict, Driver.subject,
